@@ -91,6 +91,50 @@ def nets(bpj):
     return out
 
 
+def net_certificate(bpj, tag):
+    """Coq definitions that let the kernel re-derive the net ids of `nets(bpj)` from the wires: per colour
+    the wire list, the id map, a rooted forest (parent pointers with depths, found by breadth-first search)
+    and the roots; plus the entity numbers in term order.  Returns (definitions, boolean expression).
+    Valid/.. Factorio/Nets.v: bp_nets_ok_sound."""
+    nm = nets(bpj)
+    nums = [int(e["entity_number"]) for e in entities_of(bpj)]
+
+    def cn(k):
+        return f"({k[0]}%N, {k[1]}%N)"
+
+    defs = [f"Definition nums_{tag} : list N := [{'; '.join(str(n) + '%N' for n in nums)}]."]
+    for col, cname in ((1, "r"), (0, "g")):
+        ws = [((e1, c1), (e2, c2)) for e1, c1, e2, c2 in wires_of(bpj) if c1 != 5 and c2 != 5 and c1 % 2 == col]
+        ids = {k: v for k, v in nm.items() if k[1] % 2 == col}
+        adj = {}
+        for a, b in ws:
+            adj.setdefault(a, []).append(b)
+            adj.setdefault(b, []).append(a)
+        roots, rows = {}, []
+        seen = set()
+        for k in sorted(ids):
+            if k in seen:
+                continue
+            roots[ids[k]] = k
+            seen.add(k)
+            rows.append((k, k, 0))
+            queue = [(k, 0)]
+            while queue:
+                u, d = queue.pop(0)
+                for v in adj.get(u, []):
+                    if v not in seen:
+                        seen.add(v)
+                        rows.append((v, u, d + 1))
+                        queue.append((v, d + 1))
+        defs.append(f"Definition w{cname}_{tag} : list wire := [{'; '.join('(' + cn(a) + ', ' + cn(b) + ')' for a, b in ws)}].")
+        defs.append(f"Definition m{cname}_{tag} : idmap := [{'; '.join('(' + cn(k) + ', ' + str(v) + '%N)' for k, v in sorted(ids.items()))}].")
+        defs.append(f"Definition c{cname}_{tag} : cert := [" + "; ".join(
+            f"{{| cr_c := {cn(c)}; cr_parent := {cn(p_)}; cr_depth := {d}%nat |}}" for c, p_, d in rows) + "].")
+        defs.append(f"Definition r{cname}_{tag} : roots := [{'; '.join('(' + str(i) + '%N, ' + cn(c) + ')' for i, c in sorted(roots.items()))}].")
+    expr = (f"bp_nets_ok bp_{tag} nums_{tag} wr_{tag} wg_{tag} mr_{tag} mg_{tag} cr_{tag} cg_{tag} rr_{tag} rg_{tag}")
+    return "\n".join(defs) + "\n", expr
+
+
 DESC_INPUT = re.compile(r"^(?:\[[^\]]*\]\s*)?(?:computing\s+)?(\S+) \(value=(-?\d+) \(input\)\)")
 DESC_ANCHOR = re.compile(r"^(?:\[[^\]]*\]\s*)?(\S+) \(output anchor\)(?:\s*->\s*(\S+))?")
 
